@@ -1136,6 +1136,53 @@ func checkEffectiveProperty1(c *Ctx, rule string, fn *ssa.Function, keyPkg, keyV
 			}
 		}
 		if !ok {
+			// or "default first, own setting on top": the default is stored into a field of the column's record
+			// unconditionally, and the own value overwrites that same field later, only where it is set
+			type fstore struct {
+				st  *ssa.Store
+				key string
+			}
+			storesOf := func(call *ssa.Call) []fstore {
+				var out []fstore
+				seen := map[ssa.Value]bool{}
+				var walk func(v ssa.Value)
+				walk = func(v ssa.Value) {
+					if seen[v] {
+						return
+					}
+					seen[v] = true
+					for _, rr := range referrersOf(v) {
+						switch x := rr.(type) {
+						case *ssa.TypeAssert, *ssa.Extract, *ssa.MakeInterface, *ssa.ChangeInterface, *ssa.Phi:
+							walk(x.(ssa.Value))
+						case *ssa.Store:
+							if fa, isFA := x.Addr.(*ssa.FieldAddr); isFA && x.Val == v {
+								out = append(out, fstore{x, fieldKindKey(fa)})
+							}
+						}
+					}
+				}
+				walk(call)
+				return out
+			}
+			for _, os := range storesOf(o) {
+				ownGuarded := false
+				for _, cf := range expandConds(dominatingConds(os.st.Block())) {
+					if e, nn, isT := nilTest(cf.Cond); isT && e == ssa.Value(o) && (nn == 0) == cf.Val {
+						ownGuarded = true
+					}
+				}
+				if !ownGuarded {
+					continue
+				}
+				for _, ds := range storesOf(def) {
+					if ds.key == os.key && instrDominates(ds.st, os.st) {
+						ok = true
+					}
+				}
+			}
+		}
+		if !ok {
 			// or a helper handed both: it answers with the default (or what was derived from it) where the own value is nil
 			eachInstr(fn, func(in ssa.Instruction) {
 				call, isCall := in.(*ssa.Call)
@@ -1260,6 +1307,9 @@ func destinations(call *ssa.Call, filter func(ssa.Instruction) bool) map[string]
 					out[fmt.Sprintf("elem:%p", capturedLoad(a.X))] = true // (the slice itself, also when it lives in a variable a closure captures)
 				case *ssa.FieldAddr:
 					out[fmt.Sprintf("field:%p:%d", a.X, a.Field)] = true
+					// ... and, less exactly, "that field of that kind of record" (a record built as a literal and then
+					// stored whole, and the same field of the stored record written again later)
+					out[fieldKindKey(a)] = true
 				case *ssa.Alloc:
 					out[fmt.Sprintf("var:%p", a)] = true
 				}
@@ -1383,4 +1433,13 @@ func emitCallee(in ssa.Instruction, pkg string, fn *ssa.Function) *ssa.Function 
 		return inner
 	}
 	return nil
+}
+
+// fieldKindKey: "field #i of struct type T", whichever object of that type is meant.
+func fieldKindKey(fa *ssa.FieldAddr) string {
+	t := fa.X.Type()
+	if pt, ok := t.Underlying().(*types.Pointer); ok {
+		t = pt.Elem()
+	}
+	return fmt.Sprintf("fieldkind:%s:%d", types.TypeString(t, nil), fa.Field)
 }
